@@ -24,4 +24,7 @@ const (
 	// IngressPodName and IngressPodNamespace are used to represent that pod with those placeholder values for name and namespace.
 	IngressPodName      = "ingress-controller"
 	IngressPodNamespace = "ingress-controller-ns"
+	// IngressPodString is the string of the peer of that pod (a pod added by the analysis is written {name});
+	// a workload of the input that is named ingress-controller is written namespace/ingress-controller[Kind]
+	IngressPodString = "{" + IngressPodName + "}"
 )
